@@ -365,3 +365,18 @@ V("C01-t-stage-loop-from-0-silent", "C01", "silent", (RKM, "    for stage in ran
 V("C07-s-sentinel-unchecked", "C07", "C07.7", (DS, "                                if not self.__events or last_occurrence[active_events[ev_idx]] == -1:", "                                if not self.__events:"))
 V("C09-s-sentinel-unchecked", "C09", "C09.5", (DS, "                                if not self.__events or last_occurrence[active_events[ev_idx]] == -1:", "                                if not self.__events:"))
 V("C07-t-sentinel-ge0-silent", "C07", "silent", (DS, "                                if not self.__events or last_occurrence[active_events[ev_idx]] == -1:", "                                if not self.__events or last_occurrence[active_events[ev_idx]] < 0:"))
+V("C19-s-dir-from-span", "C19", "C19.2", (DS, "            __dir = D.ar_numpy.sign(self.t[-1] - self.t[0])\n            if index.start", "            __dir = D.ar_numpy.sign(self.tf - self.t0)\n            if index.start"))
+V("C19-t-dir-from-dt", "C19", "C19.2", (DS, "            __dir = D.ar_numpy.sign(self.t[-1] - self.t[0])\n            if index.start", "            __dir = D.ar_numpy.sign(self.dt)\n            if index.start"))
+V("C18-s-teval-unique", "C18", "C18.7", (DS, "        t_eval = __dir * D.ar_numpy.sort(__dir * D.ar_numpy.asarray(t_eval))", "        t_eval = __dir * D.ar_numpy.unique(__dir * D.ar_numpy.asarray(t_eval))"))
+V("C18-t-teval-slice", "C18", "C18.7", (DS, "        t_eval = __dir * D.ar_numpy.sort(__dir * D.ar_numpy.asarray(t_eval))", "        t_eval = __dir * D.ar_numpy.sort(__dir * D.ar_numpy.asarray(t_eval))[1:]"))
+V("C18-u-teval-neg-sort-silent", "C18", "silent", (DS, "        t_eval = __dir * D.ar_numpy.sort(__dir * D.ar_numpy.asarray(t_eval))", "        t_eval = D.ar_numpy.asarray(t_eval)\n        t_eval = D.ar_numpy.sort(t_eval * __dir) * __dir"))
+V("C08-s-probe-abs-width", "C08", "C08.5", (DS, "    g = [ev_f[idx](t_root - (t_next - t_prev) * D.epsilon(roots[0].dtype) ** 0.5) for idx, t_root in enumerate(roots)]", "    g = [ev_f[idx](t_root - D.ar_numpy.abs(t_next - t_prev) * D.epsilon(roots[0].dtype) ** 0.5) for idx, t_root in enumerate(roots)]"))
+V("C15-s-scalar-passthrough", "C15", "C15.3", (OPT, "        res = nonlinear_roots(f_vec, D.ar_numpy.atleast_1d(x0), jac_vec, tol=tol, verbose=verbose, maxiter=maxiter)\n        return D.ar_numpy.reshape(res[0], xshape), res[1]", "        return nonlinear_roots(f_vec, D.ar_numpy.atleast_1d(x0), jac_vec, tol=tol, verbose=verbose, maxiter=maxiter)"))
+V("C15-t-scalar-passthrough-name", "C15", "C15.3", (OPT, "        res = nonlinear_roots(f_vec, D.ar_numpy.atleast_1d(x0), jac_vec, tol=tol, verbose=verbose, maxiter=maxiter)\n        return D.ar_numpy.reshape(res[0], xshape), res[1]", "        res = nonlinear_roots(f_vec, D.ar_numpy.atleast_1d(x0), jac_vec, tol=tol, verbose=verbose, maxiter=maxiter)\n        return res"))
+V("C10-s-newton-or", "C10", "C10.5", (ITY, 'self.solver_dict["newton_iteration_success"] and prec < desired_tol', 'self.solver_dict["newton_iteration_success"] or prec < desired_tol'))
+V("C12-s-no-raise", "C12", "C12.7", (ITY, "                if redo_step:\n                    raise exception_types.FailedToMeetTolerances(", "                if False:\n                    raise exception_types.FailedToMeetTolerances("))
+_SWAP_OLD = "                    if not self.is_adaptive:\n                        timestep, redo_step = self.dTime, False\n                    if self.is_implicit and not self.solver_dict.get(\"newton_iteration_success\"):\n                        redo_step = True\n                        timestep = timestep * 0.8\n"
+_SWAP_NEW = "                    if self.is_implicit and not self.solver_dict.get(\"newton_iteration_success\"):\n                        redo_step = True\n                        timestep = timestep * 0.8\n                    if not self.is_adaptive:\n                        timestep, redo_step = self.dTime, False\n"
+V("C10-t-override-after-newton", "C10", "C10.5", (ITY, _SWAP_OLD, _SWAP_NEW))
+V("C12-t-override-after-newton", "C12", "C12.7", (ITY, _SWAP_OLD, _SWAP_NEW))
+V("C02-t-override-after-newton", "C02", "C02.4", (ITY, _SWAP_OLD, _SWAP_NEW))
